@@ -13,6 +13,18 @@ append/insert a bogus key; dict/set likewise; iterators are consumed; tuples are
 iteration (same objects, same order), the isotopes list, el[A], 'A-Sym' lookups, the charges, ion[q] and
 the invalid neighbours must be as before - a returned container is the caller's own copy.
 
+Part 1b, keys of other Python types (inside the sweep).  A lookup key need not be an `int` or a `str`.  Next to
+every valid key K of every route (table[Z], el[A], el.ion[q], isotope.ion[q], and add_isotope on a scratch
+table) stand keys of the other legal types, each written as an expression in K: numerically EQUAL ones
+(float(K), numpy ints and floats, Fraction, Decimal, complex(K, 0), bool for 0/1, -0.0), SPELLINGS of K
+(str(K), with blanks, 'K.0', bytes, (K,), [K]) and numerically UNEQUAL ones (K +- 0.5, 0.25, 0.9, one ulp, numpy
+floats, Fraction, Decimal, complex(K, 1), 'K.5', 'Kx', K + 2**8/16/32/64, -K), plus keys that belong to no K
+(None, nan, inf, '', b'', (), 10**30, True/False).  Equal keys and spellings: the lookup raises or returns the
+very object of the int key (whose field equals the key numerically); unequal keys must raise (add_isotope:
+must not hand out one of the existing isotopes).  The string routes get the same: str subclass, bytes, tuple,
+number, ' 56-Fe', '+56-Fe', '056-Fe', '56.0-Fe' (raise or the same object), '56.5-Fe', '55.75-Fe', '56.9-Fe',
+'56x-Fe' (raise).
+
 Part 2, lookup-sequence graph.  Ion objects are created on first use, so identity is a property of
 the ORDER of first lookups.  State = a fresh private table + the event history.  Depth-first: each
 successor state is produced by executing the event in a forked copy of the interpreter that holds
@@ -30,6 +42,12 @@ the library may refuse a name (nothing may change then).  After every event ever
 the atoms of EVERY live table - a fixed set with every kind of atom incl. an ion first created in that
 round, or all atoms of the table - against the ledger of every object returned before.
 
+Part 5, first access through a key of another type.  Ions are created under the key that asked first, so
+for a fixed set of atoms of every kind (public and a fresh private table) x every equal key / spelling:
+in a forked copy of the untouched state the FIRST lookup uses that key; afterwards the int key, pickle,
+copy, deepcopy, the same key again and change_table (there and back) must all give that one object, whose
+field equals the int key.
+
 Every lookup is an expression / statement string that is compiled once and evaluated on the real
 library, so the standalone snippet of a violation is literally the code that was run."""
 import gc, itertools, os, pickle, sys, traceback
@@ -43,7 +61,16 @@ META = dict(
           "all isotopes, all element ions, all isotope ions - each compared over >= 8 lookup routes, plus one "
           "case per invalid neighbour key (a key whose literal text no atom's fields can match), plus one case per "
           "(element, container-returning route, in-place mutation of the returned container) after which "
-          "iteration, isotope lists, el[A], 'A-Sym' lookups, charges and ion[q] are re-checked; sequence "
+          "iteration, isotope lists, el[A], 'A-Sym' lookups, charges and ion[q] are re-checked; keys of other "
+          "Python types: one case per (route in table[Z], el[A], el.ion[q], isotope.ion[q], add_isotope on a scratch "
+          "table, symbol(), name(), isotope(); valid key K of every atom of the table; key expression in K out of 45 - "
+          "float/numpy/Fraction/Decimal/complex/bool equal to K, text/bytes/tuple/list spellings of K, K +- 0.5, 0.25, "
+          "0.9, 1 ulp, 'K.5', 'Kx', K + 2**8..2**64, -K) plus 16 keys per container that belong to no K (None, nan, inf, "
+          "'', b'', (), 10**30, True, False, -0.0): a key that equals or spells K raises or returns the object of the "
+          "int key (field == key), every other key raises (add_isotope: never hands out an existing isotope); first "
+          "access by such a key: one forked copy of the untouched state per (public / fresh private table, 14 atoms of "
+          "all four kinds, 19 equal keys and spellings), then int key, pickle 0/2/5, copy, deepcopy, the key again, "
+          "change_table there and back must give one object whose field equals the int key; sequence "
           "graph: one state per event history on its own copy of a fresh private table, non-trivial = the "
           "last event obtains a (Z, A, charge) through a route different from the one that produced it first; "
           "table-construction histories: one state per sequence of construction events (same name as the live private "
@@ -54,18 +81,26 @@ META = dict(
           "the object returned before; non-trivial = the event constructed a table"),
     bound=dict(
         quick="complete sweep of the public and one private table x 3 first-touch variants (incl. 7 container "
-              "routes x up to 8 mutations per element); all lookup "
+              "routes x up to 8 mutations per element, and every key of another type next to every valid key of "
+              "every route - about 1.03 million keys per table sweep); all 490 first-access cases; all lookup "
               "histories of length <= 4 over the 14-event alphabet; all table-construction histories of length <= 2 "
               "over 6 construction events (42), all atoms of all live tables after a first event that constructed a table",
         thorough="complete sweep of public, private and private-vs-private x 3 first-touch variants (incl. the "
-                 "container mutations); all "
+                 "container mutations and the keys of other types); all 490 first-access cases; all "
                  "lookup histories of length <= 5 over the 14-event alphabet; all table-construction histories of "
                  "length <= 3 (258), all atoms of all live tables after each of the first two events that constructed a table"),
     assumptions=[
         "tables are mass- and density-initialised and no lazy loader runs (loaders that add isotopes are "
         "the E2 part of C08)",
-        "not judged (text silent): isotope('0-Sym'), el[0], ion[0], numerically equal spellings of a key "
-        "(float keys, ' 56-Fe', '+56-Fe', '056-Fe'), which symbol/name an 'A-H' lookup of D/T reports",
+        "not judged (text silent): isotope('0-Sym'), el[0], ion[0], which symbol/name an 'A-H' lookup of D/T reports",
+        "keys of other Python types: a key that is numerically equal to a valid int key (56.0, numpy.int64(56), "
+        "Fraction(56), Decimal(56), complex(56, 0), True for 1, -0.0 for 0) or spells it without being a number "
+        "('56', ' 56', '56 ', '56.0', '056', b'56', (56,), [56]; ' 56-Fe', '+56-Fe', '056-Fe', '56.0-Fe', '56 -Fe', "
+        "b'56-Fe', (56, 'Fe'); b'Fe', 26 or '26' given to symbol()/name()/isotope()) may be refused or accepted - "
+        "when accepted the result must be the very object of the int key, so its field equals the key numerically "
+        "(the type in which an ion remembers its charge after such a first access is not judged); every key that "
+        "differs numerically from all valid keys is an unknown key and must raise; add_isotope may create a new "
+        "isotope for any key but must not return an isotope that existed under another number",
         "the D/T aliases (symbols D, T; names deuterium, tritium = H[2], H[3]) are taken from the "
         "PeriodicTable docstrings",
         "'restore-first' emulates a pickle written by an earlier session of an equally named table by "
@@ -89,7 +124,9 @@ META = dict(
                 "interpreter; the list of valid keys is read from the table itself (iteration, el.isotopes, "
                 "el.ions) and cross-checked against scans of el[A] and table[Z]; signatures name kind + route "
                 "(identity:<kind>:<route>, fields:..., route-raises:..., accepts-invalid:<route>:<class>, "
-                "iteration:..., identity-after-table-construction:<class of the last construction that succeeded>:"
+                "iteration:..., accepts-invalid:<route>:<class of key type>, wrong-object-for-key:<route>:<class>, "
+                "identity-/fields-/route-raises-after-first-access-by:<class>:<route>:<what>, "
+                "identity-after-table-construction:<class of the last construction that succeeded>:"
                 "<restore|lookup>), the exact atom / history is in the case"),
 )
 
@@ -107,6 +144,146 @@ U_INDEP = {"element": "U.symbol(sym)", "isotope": "U.isotope(key)",
 VARIANTS = ("direct-first", "restore-first", "foreign-first")
 # routes that share one mechanism share one signature (the exact route is in the case)
 SIG_ROUTE = {"pickle-in-container": "pickle", "deepcopy-in-container": "deepcopy"}
+
+# ------------------------------------------------------------------------------------------------
+# keys of other Python types, written as expressions in the valid int key {K} (the name of the variable that
+# holds it: Z, A or q).  Judgement class:
+#   EQ     numerically equal to K by construction: the lookup raises, or returns the object of the int key
+#          (whose field then equals the key numerically)
+#   SPELL  a spelling of K that is not a number (text, bytes, a container): raises, or the object of the int key
+#   NEQ    numerically different from every valid key of the route: must raise
+#   DYN    decided by value: EQ for the valid key it equals, else NEQ (0 is not judged for A and q)
+EQ, SPELL, NEQ, DYN = "equal", "spelling", "unequal", "by-value"
+ALT_KEYS = (
+    ("float-integral", EQ, "float({K})"),
+    ("numpy-int", EQ, "np.int64({K})"), ("numpy-int", EQ, "np.int32({K})"), ("numpy-int", EQ, "np.int16({K})"),
+    ("numpy-float-integral", EQ, "np.float64({K})"), ("numpy-float-integral", EQ, "np.float32({K})"),
+    ("fraction-integral", EQ, "Fraction({K})"), ("decimal-integral", EQ, "Decimal({K})"),
+    ("complex-integral", EQ, "complex({K}, 0)"),
+    ("numeric-string", SPELL, "str({K})"), ("numeric-string", SPELL, "' ' + str({K})"),
+    ("numeric-string", SPELL, "str({K}) + ' '"), ("numeric-string", SPELL, "str({K}) + '.0'"),
+    ("numeric-string", SPELL, "'%03d' % {K}"),
+    ("bytes", SPELL, "str({K}).encode()"),
+    ("tuple", SPELL, "({K},)"), ("list", SPELL, "[{K}]"),
+    ("float-fraction", NEQ, "{K} + 0.5"), ("float-fraction", NEQ, "{K} - 0.5"),
+    ("float-fraction", NEQ, "{K} + 0.25"), ("float-fraction", NEQ, "{K} - 0.25"),
+    ("float-fraction", NEQ, "{K} + 0.9"), ("float-fraction", NEQ, "{K} - 0.9"),
+    ("float-one-ulp", NEQ, "math.nextafter({K}, math.inf)"), ("float-one-ulp", NEQ, "math.nextafter({K}, -math.inf)"),
+    ("numpy-float-fraction", NEQ, "np.float64({K}) + 0.5"), ("numpy-float-fraction", NEQ, "np.float64({K}) - 0.25"),
+    ("numpy-float-fraction", NEQ, "np.float32({K}) + 0.9"), ("numpy-float-fraction", NEQ, "np.float32({K}) - 0.5"),
+    ("fraction", NEQ, "Fraction(2*{K} + 1, 2)"), ("fraction", NEQ, "Fraction(4*{K} - 1, 4)"),
+    ("decimal", NEQ, "Decimal({K}) + Decimal('0.5')"), ("decimal", NEQ, "Decimal({K}) - Decimal('0.1')"),
+    ("complex", NEQ, "complex({K}, 1)"),
+    ("fraction-in-string", NEQ, "str({K}) + '.5'"), ("fraction-in-string", NEQ, "str({K}) + '.9'"),
+    ("fraction-in-string", NEQ, "repr({K} - 0.25)"),
+    ("number-with-suffix", NEQ, "str({K}) + 'x'"),
+    ("large-int", DYN, "{K} + 2**8"), ("large-int", DYN, "{K} + 2**16"), ("large-int", DYN, "{K} + 2**32"),
+    ("large-int", DYN, "{K} + 2**64"), ("large-int", DYN, "{K} - 2**32"), ("large-int", DYN, "{K} - 2**64"),
+    ("negated", DYN, "-{K}"),
+)
+# keys that are derived from no valid key: once per container (table, element, ion set)
+CONST_KEYS = (
+    ("none", DYN, "None"), ("nan", DYN, "float('nan')"), ("nan", DYN, "np.float64('nan')"),
+    ("infinity", DYN, "float('inf')"), ("infinity", DYN, "-float('inf')"),
+    ("empty-string", DYN, "''"), ("empty-string", DYN, "b''"), ("empty-tuple", DYN, "()"),
+    ("huge-int", DYN, "10**30"), ("huge-int", DYN, "-10**30"), ("huge-int", DYN, "2**64"), ("huge-int", DYN, "-2**63"),
+    ("huge-float", DYN, "1e300"), ("bool", DYN, "True"), ("bool", DYN, "False"), ("negative-zero", DYN, "-0.0"),
+)
+# route -> (kind of atom, variable of the key, lookup with a hole, lookup with the int key, field, 0 is judged)
+ALT_ROUTES = {
+    "table[Z]": ("element", "Z", "T[%s]", "T[Z]", "number", True),
+    "el[A]": ("isotope", "A", "T[Z][%s]", "T[Z][A]", "isotope", False),
+    "ion[q]": ("ion", "q", "T[Z].ion[%s]", "T[Z].ion[q]", "charge", False),
+    "isotope.ion[q]": ("isotope-ion", "q", "T[Z][A].ion[%s]", "T[Z][A].ion[q]", "charge", False),
+    # on the scratch table S (a private table of its own): add_isotope creates what it does not find
+    "add_isotope": ("isotope", "A", "S[Z].add_isotope(%s)", "S[Z][A]", "isotope", False),
+}
+# key classes that one cause produces together share one signature class (the exact key is in the case)
+SIG_KEY = dict([(k, "non-integral-number") for k in ("float-fraction", "float-one-ulp", "numpy-float-fraction",
+                                                       "fraction", "decimal")]
+               + [(k, "non-integral-text") for k in ("fraction-in-string", "number-with-suffix")]
+               + [(k, "other-int") for k in ("large-int", "huge-int", "negated")]
+               + [(k, "equal-number") for k in ("float-integral", "numpy-int", "numpy-float-integral", "fraction-integral",
+                                                "decimal-integral", "complex-integral", "bool", "negative-zero", "int")]
+               + [(k, "spelling") for k in ("numeric-string", "numeric-spelling", "bytes", "tuple", "list", "number",
+                                            "isotope-string")])
+_PREP = {}
+
+
+def _prepared(route, const):
+    """[(key class, judgement class, lookup expression, key expression, outcome prefix)] of a route"""
+    got = _PREP.get((route, const))
+    if got is None:
+        _, var, hole = ALT_ROUTES[route][:3]
+        got = []
+        for klass, cls, kexpr in (CONST_KEYS if const else ALT_KEYS + (("int", EQ, "{K}"),) * (route == "add_isotope")):
+            k = kexpr.format(K=var)
+            got.append((klass, cls, hole % k, k, "altkey:%s:%s:" % (route, klass)))
+        _PREP[(route, const)] = got
+    return got
+
+
+def _match(key, valid):
+    """the valid int key that `key` equals numerically, or None"""
+    if type(key) is int:
+        return key if key in valid else None
+    if key is None or isinstance(key, (str, bytes, tuple, list)):
+        return None
+    try:
+        for v in valid:
+            if key == v:
+                return v
+    except Exception:
+        pass
+    return None
+
+
+def _is_zero(key):
+    try:
+        return not isinstance(key, (str, bytes, tuple, list, type(None))) and bool(key == 0)
+    except Exception:
+        return False
+
+
+def _r(x):
+    """repr that survives atoms whose charge / isotope number has an unusual type"""
+    try:
+        return repr(x)
+    except Exception as e:
+        return "<%s at %#x; repr raises %s>" % (type(x).__name__, id(x), type(e).__name__)
+
+
+# the string routes: (route, key class, judgement class, expression); target = the element / the isotope
+STR_ELEMENT = (
+    ("symbol()", "str-subclass", EQ, "T.symbol(np.str_(sym))"), ("symbol()", "bytes", SPELL, "T.symbol(sym.encode())"),
+    ("symbol()", "tuple", SPELL, "T.symbol((sym,))"), ("symbol()", "number", SPELL, "T.symbol(Z)"),
+    ("symbol()", "number", SPELL, "T.symbol(float(Z))"), ("symbol()", "numeric-string", SPELL, "T.symbol(str(Z))"),
+    ("name()", "str-subclass", EQ, "T.name(np.str_(name))"), ("name()", "bytes", SPELL, "T.name(name.encode())"),
+    ("name()", "tuple", SPELL, "T.name((name,))"), ("name()", "number", SPELL, "T.name(Z)"),
+    ("name()", "numeric-string", SPELL, "T.name(str(Z))"),
+    ("isotope()", "str-subclass", EQ, "T.isotope(np.str_(sym))"), ("isotope()", "bytes", SPELL, "T.isotope(sym.encode())"),
+    ("isotope()", "tuple", SPELL, "T.isotope((sym,))"), ("isotope()", "number", SPELL, "T.isotope(Z)"),
+    ("isotope()", "numeric-string", SPELL, "T.isotope(str(Z))"),
+)
+STR_ISOTOPE = (
+    ("isotope()", "str-subclass", EQ, "T.isotope(np.str_(key))"), ("isotope()", "bytes", SPELL, "T.isotope(key.encode())"),
+    ("isotope()", "tuple", SPELL, "T.isotope((A, sym))"), ("isotope()", "tuple", SPELL, "T.isotope((str(A), sym))"),
+    ("isotope()", "numeric-spelling", SPELL, "T.isotope(' ' + key)"), ("isotope()", "numeric-spelling", SPELL, "T.isotope('+' + key)"),
+    ("isotope()", "numeric-spelling", SPELL, "T.isotope('0' + key)"),
+    ("isotope()", "numeric-spelling", SPELL, "T.isotope('%d.0-%s' % (A, sym))"),
+    ("isotope()", "numeric-spelling", SPELL, "T.isotope('%d -%s' % (A, sym))"),
+    ("isotope()", "fraction-in-string", NEQ, "T.isotope('%s-%s' % (A + 0.5, sym))"),
+    ("isotope()", "fraction-in-string", NEQ, "T.isotope('%s-%s' % (A - 0.25, sym))"),
+    ("isotope()", "fraction-in-string", NEQ, "T.isotope('%s-%s' % (A + 0.9, sym))"),
+    ("isotope()", "fraction-in-string", NEQ, "T.isotope('%d.5e0-%s' % (A, sym))"),
+    ("isotope()", "number-with-suffix", NEQ, "T.isotope('%dx-%s' % (A, sym))"),
+    ("symbol()", "isotope-string", SPELL, "T.symbol(key)"), ("name()", "isotope-string", SPELL, "T.name(key)"),
+)
+STR_CONST = tuple((route, klass, NEQ, "T.%s(%s)" % (route[:-2], k))
+                  for route in ("symbol()", "name()", "isotope()")
+                  for klass, k in (("none", "None"), ("nan", "float('nan')"), ("empty-string", "''"),
+                                   ("empty-string", "b''"), ("empty-tuple", "()"), ("fraction", "0.5"),
+                                   ("huge-int", "10**30")))
 
 
 # ------------------------------------------------------------------------------------------------
@@ -142,7 +319,10 @@ def b36(n, width):
 
 def setup_code(kind, tname, uname):
     """Python source that builds T (table under test) and U (the other table)."""
-    lines = ["import pickle, copy",
+    lines = ["import pickle, copy, math",
+             "import numpy as np",
+             "from fractions import Fraction",
+             "from decimal import Decimal",
              "import periodictable as pt",
              "from periodictable import core, mass, density, formula",
              "from periodictable.core import change_table",
@@ -189,6 +369,8 @@ class Sweep(object):
     def __init__(self, kind, variant, tname, uname, acc):
         self.kind, self.variant, self.acc = kind, variant, acc
         self.tname, self.uname = tname, uname
+        self.xname = "x" + tname[1:]         # scratch table for add_isotope
+        self.valid_Z = None
         self.ns, self.setup = make_env(kind, tname, uname)
         self.core = self.ns["core"]
         self.atom_types = (self.core.Element, self.core.Isotope, self.core.Ion)
@@ -383,6 +565,171 @@ class Sweep(object):
                   "an exception", "returned %r" % (x,), vars_,
                   _raise_body(expr))
 
+    # -- keys of other Python types next to a valid key (or, const=True, keys that belong to no valid key)
+    def alt_keys(self, route, vars_, casekw, valid, const=False, originals=None):
+        """`valid`: the valid int keys of the container; `originals` (add_isotope only): id -> isotope of the
+        scratch element before any key was tried."""
+        akind, var, hole, canon, attr, zero_judged = ALT_ROUTES[route]
+        acc, ns = self.acc, self.ns
+        ns.update(vars_)
+        x0 = None
+        if not const:
+            try:
+                x0 = _ev(canon, ns)
+            except Exception:
+                return              # reported by check_atom
+        n = 0
+        for klass, cls, expr, kexpr, pre in _prepared(route, const):
+            target, canon_txt = x0, canon
+            if cls is DYN:
+                try:
+                    key = _ev(kexpr, ns)
+                except Exception as e:
+                    raise MachineryError("C08 key %s cannot be built: %r" % (kexpr, e))
+                t = _match(key, valid)
+                if t is None:
+                    if not zero_judged and _is_zero(key):
+                        continue
+                    cls = NEQ
+                else:
+                    cls = EQ
+                    canon_txt = hole % repr(t)           # the int key that equals the key
+                    try:
+                        target = _ev(canon, dict(ns, **{var: t}))
+                    except Exception:
+                        continue    # reported by check_atom
+            n += 1
+            try:
+                x = _ev(expr, ns)
+            except Exception as e:
+                acc.outcome(pre + "raises-" + type(e).__name__)
+                continue
+            case = self.case(route=route, key=kexpr, key_class=klass, **casekw)
+            if originals is not None and cls is not EQ and id(x) not in originals:
+                acc.outcome(pre + "created")              # add_isotope made a new isotope under the key
+                continue
+            if cls is NEQ:
+                acc.outcome(pre + "VIOLATION")
+                body = _raise_body(expr)
+                if originals is not None:
+                    body = ["before = list(S[Z])", "try:", "    r = %s" % expr, "except Exception as e:",
+                            "    print('raises', type(e).__name__)", "else:",
+                            "    assert not any(r is i for i in before), 'returned the existing isotope %r for a key "
+                            "that is not its number' % (r,)", "    print('created', repr(r))"]
+                self.viol("accepts-invalid:%s:%s" % (route, "other-int" if klass == "bool" else SIG_KEY.get(klass, klass)), case,
+                          "an exception" if originals is None else "an exception or a new isotope",
+                          "returned %s" % _r(x), vars_, body)
+                continue
+            if x is not target:
+                acc.outcome(pre + "VIOLATION")
+                self.viol("wrong-object-for-key:%s:%s" % (route, SIG_KEY.get(klass, klass)), case,
+                          "an exception or the object of the int key, %s" % _r(target),
+                          "%s (id %#x)" % (_r(x), id(x)), vars_,
+                          ["X = %s" % canon_txt, "Y = %s" % expr, "print(X is Y, repr(X), repr(Y))", "assert X is Y"])
+                continue
+            if cls is EQ:
+                try:
+                    got = getattr(x, attr)
+                    same = bool(got == _ev(kexpr, ns))
+                except Exception as e:
+                    got, same = _exc(e), False
+                if not same:
+                    acc.outcome(pre + "VIOLATION")
+                    self.viol("fields:%s:%s:%s" % (akind, route, attr), case, "%s == %s" % (attr, kexpr), _r(got), vars_,
+                              ["Y = %s" % expr, "print(repr(Y), repr(Y.%s))" % attr, "assert Y.%s == %s" % (attr, kexpr)])
+                    continue
+            acc.outcome(pre + "same-object")
+        acc.states += n
+        acc.transitions += n
+        acc.nontrivial += n
+        acc.count("other_type_keys", n)
+
+    def alt_strings(self, table, vars_, casekw, canon):
+        """the string routes with keys of other types / other spellings; target = `canon` (None: must raise)"""
+        acc, ns = self.acc, self.ns
+        ns.update(vars_)
+        target = None
+        if canon is not None:
+            try:
+                target = _ev(canon, ns)
+            except Exception:
+                return
+        for route, klass, cls, expr in table:
+            acc.states += 1
+            acc.transitions += 1
+            acc.nontrivial += 1
+            pre = "altkey:%s:%s:" % (route, klass)
+            try:
+                x = _ev(expr, ns)
+            except Exception as e:
+                acc.outcome(pre + "raises-" + type(e).__name__)
+                continue
+            case = self.case(route=route, key=expr, key_class=klass, **casekw)
+            if cls is NEQ:
+                acc.outcome(pre + "VIOLATION")
+                self.viol("accepts-invalid:%s:%s" % (route, SIG_KEY.get(klass, klass)), case, "an exception", "returned %s" % _r(x),
+                          vars_, _raise_body(expr))
+            elif x is not target:
+                acc.outcome(pre + "VIOLATION")
+                self.viol("wrong-object-for-key:%s:%s" % (route, SIG_KEY.get(klass, klass)), case,
+                          "an exception or %s" % _r(target), "%s (id %#x)" % (_r(x), id(x)), vars_,
+                          ["X = %s" % canon, "Y = %s" % expr, "print(X is Y, repr(X), repr(Y))", "assert X is Y"])
+            else:
+                acc.outcome(pre + "same-object")
+        acc.count("other_type_keys", len(table))
+
+    def other_type_keys(self, Z, sym, name, ev, it_numbers, ions):
+        """Part 1b for the element Z: every route x every valid key x every key of another type."""
+        ns = self.ns
+        validA, validq = set(it_numbers), set(ions)
+        if self.valid_Z is None:
+            self.valid_Z = set(e.number for e in ns["T"])
+        self.alt_keys("table[Z]", ev, dict(Z=Z), self.valid_Z)
+        self.alt_strings(STR_ELEMENT, ev, dict(Z=Z), "T[Z]")
+        self.alt_keys("el[A]", ev, dict(Z=Z), validA, const=True)
+        self.alt_keys("ion[q]", ev, dict(Z=Z), validq, const=True)
+        for q in ions:
+            self.alt_keys("ion[q]", dict(ev, q=q), dict(Z=Z, q=q), validq)
+        for A in it_numbers:
+            iv = dict(ev, A=A, key="%d-%s" % (A, sym))
+            self.alt_keys("el[A]", iv, dict(Z=Z, A=A), validA)
+            self.alt_strings(STR_ISOTOPE, iv, dict(Z=Z, A=A), "T[Z][A]")
+            self.alt_keys("isotope.ion[q]", iv, dict(Z=Z, A=A), validq, const=True)
+            for q in ions:
+                self.alt_keys("isotope.ion[q]", dict(iv, q=q), dict(Z=Z, A=A, q=q), validq)
+        # add_isotope hands out the existing isotope for an existing number - on a scratch table, because it
+        # creates an isotope for every other key
+        if "S" not in ns:
+            try:
+                _ex("S = private(%r)" % self.xname, ns)
+            except Exception as e:
+                raise MachineryError("cannot build the scratch table %r: %r" % (self.xname, e))
+            self.setup += "S = private(%r)       # scratch table: add_isotope creates what it does not find\n" % self.xname
+        try:
+            xs = list(ns["S"][Z])
+        except Exception as e:
+            raise MachineryError("scratch table: %r" % e)
+        if [i.isotope for i in xs] != list(it_numbers):
+            self.acc.count("scratch_table_differs")
+            return
+        originals = dict((id(i), i) for i in xs)
+        self.alt_keys("add_isotope", ev, dict(Z=Z), validA, const=True, originals=originals)
+        for A in it_numbers:
+            self.alt_keys("add_isotope", dict(ev, A=A), dict(Z=Z, A=A), validA, originals=originals)
+        for A, iso in zip(it_numbers, xs):
+            self.acc.transitions += 1
+            try:
+                now = _ev("S[Z][A]", dict(ns, A=A))
+            except Exception as e:
+                now = _exc(e)
+            if now is not iso:
+                self.viol("identity:isotope:after-add_isotope", self.case(kind="isotope", route="add_isotope", Z=Z, A=A),
+                          "the isotope that existed before add_isotope was called with keys of other types",
+                          "%s is not %s (id %#x)" % (_r(now), _r(iso), id(iso)), dict(ev, A=A),
+                          ["X0 = S[Z][A]", "for k in (float(A), np.int64(A), str(A), A + 0.5): S[Z].add_isotope(k)",
+                           "print(S[Z][A] is X0)", "assert S[Z][A] is X0"])
+                break
+
     # -- the element Z with all its isotopes and ions
     def element(self, Z):
         acc, ns = self.acc, self.ns
@@ -508,6 +855,9 @@ class Sweep(object):
                            "for el in [T[Z]] + list(T[Z]):",
                            "    for c in el.ions: el.ion[c]",
                            "Y = %s" % PRIMARY[akind], "print(X is Y, repr(X), repr(Y))", "assert X is Y"])
+
+        # keys of other Python types next to every valid key of every route
+        self.other_type_keys(Z, sym, name, ev, it_numbers, ions)
 
         # invalid isotope keys
         A0 = it_numbers[0] if it_numbers else 1
@@ -763,6 +1113,17 @@ class Sweep(object):
             self.must_raise("isotope()", klass + "-numbered", "T.isotope(bad)", dict(bad="1-" + nm),
                             dict(table_wide=True))
             self.must_raise("name()", klass, "T.name(bad)", dict(bad=nm), dict(table_wide=True))
+        # keys of other types that belong to no element; the aliases under other string types
+        self.alt_keys("table[Z]", {}, dict(table_wide=True), set(numbers), const=True)
+        self.alt_strings(STR_CONST, {}, dict(table_wide=True), None)
+        for asym, aname, Z, A in DT_ALIASES:
+            self.alt_strings((("symbol()", "str-subclass", EQ, "T.symbol(np.str_(%r))" % asym),
+                              ("symbol()", "bytes", SPELL, "T.symbol(%r)" % asym.encode()),
+                              ("name()", "str-subclass", EQ, "T.name(np.str_(%r))" % aname),
+                              ("name()", "bytes", SPELL, "T.name(%r)" % aname.encode()),
+                              ("isotope()", "str-subclass", EQ, "T.isotope(np.str_(%r))" % asym),
+                              ("isotope()", "bytes", SPELL, "T.isotope(%r)" % asym.encode())),
+                             dict(Z=Z, A=A), dict(table_wide=True, Z=Z, A=A), "T[Z][A]")
         # D and T take no isotope number
         for asym, aname, Z, A in DT_ALIASES:
             for n in (1, 2, 3, 4):
@@ -1405,7 +1766,159 @@ def _tab_shard(args):
     return acc
 
 
+# ------------------------------------------------------------------------------------------------
+# part 5: the FIRST access to an atom uses a key of another type.  Ions (and whatever else a table creates on
+# demand) are stored under the key that asked first; every later route must still give that one object and
+# its field must equal the int key.  State = the untouched public table P and a fresh private table T; one
+# forked copy of that state per (table, atom, key); the key kinds are the EQ and SPELL entries of ALT_KEYS
+# (+ bool and -0.0 where they equal the key).
+FIRST_ATOMS = (
+    # route, kind, lookup with a hole, int key, field, the same atom in the other table
+    ("table[Z]", "element", "{T}[%s]", 26, "number"), ("table[Z]", "element", "{T}[%s]", 0, "number"),
+    ("table[Z]", "element", "{T}[%s]", 1, "number"),
+    ("el[A]", "isotope", "{T}[26][%s]", 56, "isotope"), ("el[A]", "isotope", "{T}[1][%s]", 2, "isotope"),
+    ("el[A]", "isotope", "{T}[1][%s]", 1, "isotope"), ("el[A]", "isotope", "{T}[0][%s]", 1, "isotope"),
+    ("ion[q]", "ion", "{T}[26].ion[%s]", 2, "charge"), ("ion[q]", "ion", "{T}[8].ion[%s]", -2, "charge"),
+    ("ion[q]", "ion", "{T}[1].ion[%s]", 1, "charge"), ("ion[q]", "ion", "{T}[1].ion[%s]", -1, "charge"),
+    ("isotope.ion[q]", "isotope-ion", "{T}[26][56].ion[%s]", 3, "charge"),
+    ("isotope.ion[q]", "isotope-ion", "{T}[1][2].ion[%s]", 1, "charge"),
+    ("isotope.ion[q]", "isotope-ion", "{T}[8][18].ion[%s]", -2, "charge"),
+)
+FIRST_KEYS = tuple((klass, cls, k) for klass, cls, k in ALT_KEYS if cls in (EQ, SPELL)) + (
+    ("bool", EQ, "bool({K})"), ("negative-zero", EQ, "-0.0*({K} + 1)"))
+FIRST_SETUP = "import math\nimport numpy as np\nfrom fractions import Fraction\nfrom decimal import Decimal\n"
+FIRST_CODE = """K = %(K)r
+results, moved = [], []
+def attempt(into, what, fn):
+    try:
+        into.append((what, fn()))
+    except Exception as e:
+        into.append((what, e))
+attempt(results, 'first-lookup', lambda: %(alt)s)           # the first access to this atom in this process
+Y = %(canon)s
+if not isinstance(results[0][1], Exception):
+    for p in (0, 2, pickle.HIGHEST_PROTOCOL):
+        attempt(results, 'pickle', lambda: pickle.loads(pickle.dumps(Y, p)))
+    attempt(results, 'copy', lambda: copy.copy(Y))
+    attempt(results, 'deepcopy', lambda: copy.deepcopy([Y])[0])
+    attempt(results, 'repeated-lookup', lambda: %(alt)s)
+    attempt(results, 'int-key-again', lambda: %(canon)s)
+    attempt(results, 'change_table-back', lambda: change_table(change_table(Y, %(O)s), %(T)s))
+    attempt(moved, 'change_table-forward', lambda: change_table(Y, %(O)s))
+    attempt(moved, 'other-table-lookup', lambda: %(ocanon)s)
+"""
+FIRST_CHECK = """if isinstance(results[0][1], Exception):
+    print('the key is refused:', repr(results[0][1]))
+else:
+    for what, obj in results + moved:
+        if isinstance(obj, Exception):
+            print('RAISES', what, repr(obj)); raise SystemExit(1)
+    for what, obj in results:
+        if obj is not Y:
+            print('DIFFERENT OBJECT:', what, 'gave', hex(id(obj)), 'but the int key gives', hex(id(Y))); raise SystemExit(1)
+    assert moved[0][1] is moved[1][1], 'change_table does not give the atom of the other table'
+    assert Y.%(attr)s == K, (Y.%(attr)s, K)
+    print('one object through every route')
+"""
+
+
+def first_items():
+    out = []
+    for tab in ("T", "P"):
+        for ai, (route, kind, hole, K, attr) in enumerate(FIRST_ATOMS):
+            for ki, (klass, cls, kexpr) in enumerate(FIRST_KEYS):
+                if klass == "bool" and K not in (0, 1):
+                    continue
+                if klass == "negative-zero" and K != 0:
+                    continue
+                out.append((tab, ai, ki))
+    return out
+
+
+def first_code(tab, ai, ki):
+    route, kind, hole, K, attr = FIRST_ATOMS[ai]
+    klass, cls, kexpr = FIRST_KEYS[ki]
+    other = "P" if tab == "T" else "T"
+    d = dict(K=K, alt=hole.format(T=tab) % kexpr.format(K="K"), canon=hole.format(T=tab) % "K",
+             ocanon=hole.format(T=other) % "K", T=tab, O=other, attr=attr)
+    return FIRST_CODE % d, FIRST_CHECK % d
+
+
+def first_case(ns, tab, ai, ki, acc):
+    """One first-access case in the current (untouched) state; to be run in a forked copy."""
+    route, kind, hole, K, attr = FIRST_ATOMS[ai]
+    klass, cls, kexpr = FIRST_KEYS[ki]
+    code, check = first_code(tab, ai, ki)
+    case = dict(part="first-access", table=tab, atom=ai, key=ki, route=hole.format(T=tab) % kexpr.format(K=repr(K)))
+    snippet = SEQ_SETUP % dict(name=SEQ_TABLE, bname=SEQ_TABLE.encode()) + FIRST_SETUP + code + check
+    acc.states += 1
+    acc.nontrivial += 1
+    try:
+        _ex(FIRST_SETUP, ns)          # imports only (already done before the fork)
+        _ex(code, ns)
+    except Exception as e:
+        raise MachineryError("C08 first-access case %r failed: %r" % (case, e))
+    results, moved, y = ns["results"], ns.get("moved", []), ns["Y"]
+    acc.transitions += len(results) + len(moved) + 1
+    pre = "first-access:%s:%s:" % (route, klass)
+    if isinstance(y, Exception) or isinstance(results[0][1], Exception):
+        acc.outcome(pre + "refused-" + type(results[0][1]).__name__)
+        return
+    bad = False
+    for what, obj in results + moved:
+        if isinstance(obj, Exception):
+            bad = True
+            acc.violation("route-raises-after-first-access-by:%s:%s:%s" % (SIG_KEY.get(klass, klass), route, what), case, "the atom",
+                          _exc(obj), standalone=snippet)
+    if bad:
+        return
+    for what, obj in results:
+        if obj is not y:
+            bad = True
+            acc.violation("identity-after-first-access-by:%s:%s:%s" % (SIG_KEY.get(klass, klass), route, what), case,
+                          "the object that the int key returns, %s (id %#x)" % (_r(y), id(y)),
+                          "%s (id %#x)" % (_r(obj), id(obj)), standalone=snippet)
+            break
+    if not bad and moved[0][1] is not moved[1][1]:
+        bad = True
+        acc.violation("identity-after-first-access-by:%s:%s:change_table-forward" % (SIG_KEY.get(klass, klass), route), case,
+                      "the atom of the other table, %s (id %#x)" % (_r(moved[1][1]), id(moved[1][1])),
+                      "%s (id %#x)" % (_r(moved[0][1]), id(moved[0][1])), standalone=snippet)
+    try:
+        got = getattr(y, attr)
+        same = bool(got == K)
+    except Exception as e:
+        got, same = _exc(e), False
+    if not same:
+        bad = True
+        acc.violation("fields-after-first-access-by:%s:%s:%s" % (SIG_KEY.get(klass, klass), route, attr), case, "%s == %r" % (attr, K),
+                      _r(got), standalone=snippet)
+    acc.outcome(pre + ("VIOLATION" if bad else "same-object"))
+
+
+def _first_shard(args):
+    items, = args
+    gc.disable()
+    acc = Acc()
+    ns, _ = seq_state()
+    _ex(FIRST_SETUP, ns)              # the modules of the key types are imported before the state is forked
+    for tab, ai, ki in items:
+        def child(tab=tab, ai=ai, ki=ki):
+            a = Acc()
+            first_case(ns, tab, ai, ki, a)
+            return a
+        acc.merge(_in_fork(child))
+    acc.evaluations = acc.traces = acc.transitions
+    acc.count("first_access_cases", len(items))
+    if items:
+        tab, ai, ki = items[0]
+        acc.sample(dict(part="first-access", table=tab, atom=ai, key=ki))
+    return acc
+
+
 def _mixed_shard(args):
+    if args[0] == "first":
+        return _first_shard(args[1])
     return _tab_shard(args[1]) if args[0] == "tables" else _seq_shard(args[1])
 
 
@@ -1426,7 +1939,7 @@ def run(ctx):
     import periodictable.formulas    # noqa - so that no forked state has to import the parser again
     items = []
     kinds = ["public", "private"] + ([] if ctx.quick else ["private2"])
-    nchunk = 4
+    nchunk = 8
     idx = 0
     for kind in kinds:
         for variant in VARIANTS:
@@ -1449,6 +1962,8 @@ def run(ctx):
     tdepth, tfull = (2, 1) if ctx.quick else (3, 2)
     tlabels = tuple(TABLE_EVENTS[i][0] for i in rotate(list(range(len(TABLE_EVENTS))), ctx.seed))
     mixed = [("tables", (l, tdepth, tfull, tlabels, i == 0)) for i, l in enumerate(tlabels)] + [("seq", a) for a in shards]
+    # first access through a key of another type: one forked copy of the untouched state per (table, atom, key)
+    mixed += [("first", (chunk,)) for chunk in common.chunks(rotate(first_items(), ctx.seed), 8)]
     for acc in common.pmap(_mixed_shard, mixed, jobs, "C08 sequences + tables"):
         ctx.acc.merge(acc)
     ctx.acc.info["table_construction_depth"] = tdepth
@@ -1492,6 +2007,16 @@ def _replay(acc, case):
             return a
         acc.merge(in_fork(go))
         return
+    if case.get("part") == "first-access":
+        from ..histmc import in_fork
+        def go():
+            a = Acc()
+            ns, _ = seq_state()
+            first_case(ns, case["table"], int(case["atom"]), int(case["key"]), a)
+            a.evaluations = a.traces = a.transitions
+            return a
+        acc.merge(in_fork(go))
+        return
     if case.get("part") == "loaders":
         from ..histmc import in_fork
         acc.merge(in_fork(lambda: _loader_path((tuple(case["history"]),))))
@@ -1499,7 +2024,7 @@ def _replay(acc, case):
     if case.get("part") != "sweep":
         raise MachineryError("unknown case %r" % (case,))
     sw = Sweep(case["table"], case["variant"], "s" + b36(0, 5), "r" + b36(0, 5), acc)
-    if case.get("table_wide") or "Z" not in case or case.get("route") == "table[Z]":
+    if case.get("table_wide") or "Z" not in case or (case.get("route") == "table[Z]" and "key" not in case):
         sw.table_wide()
     else:
         sw.element(case["Z"])
